@@ -11,10 +11,10 @@ TECH = {
  "C05": "runtime monitor: instrumented objective records every argument (in-process and O_APPEND log from pool worker processes); membership oracle",
  "C06": "runtime monitor: outcome/exception-key oracle over generated valid runs (known-findings by mechanism, audited baseline for integer encodings) + generated invalid calls with step-counter hook",
  "C07": "relational runtime monitor: seeded run A (after RNG perturbation) vs A' vs B in another process/hash seed; unseeded-RNG call hooks",
- "C08": "history monitor: used-vs-fresh instance result comparison + stale-state read hook (__getattribute__/__setattr__ on the optimizer)",
+ "C08": "history monitor: used-vs-fresh instance result comparison over call histories (completed, aborted mid-run, re-configured) + stale-state read hook (__getattribute__/__setattr__ on the optimizer)",
  "C09": "invariant at a hook: canonical dumps of config and task before/after optimize() incl. exception path, shared-config sequences",
  "C10": "runtime monitor: generation sizes of every recorded generation on generated runs, 3 modes, worker counts 1-16",
- "C11": "schedule-perturbed thread/process runs: pool hooks (futures submitted/gathered, completion permutations), exactly-once matching of agents to evaluations, pooled-greedy reference model, distinctness of initial points",
+ "C11": "schedule-perturbed thread/process runs (seeded delays, sys.monitoring line-level yields in pool threads, 1-16 workers): pool hooks (futures submitted/gathered, completion orders at the executor), exactly-once matching of agents to evaluations, pooled-greedy reference model, distinctness of initial points",
  "C12": "relational runtime monitor: run(max,f) vs run(min,-f) agent by agent, exact negation",
  "C13": "runtime contracts (domain laws) evaluated on the real variable classes over enumerated + random inputs",
  "C14": "runtime contracts (task consistency laws) on the real Task over all variable lists of length <= 3 + random ones",
@@ -23,7 +23,7 @@ TECH = {
  "C17": "runtime monitor: best cost monotone between consecutive generations for the structurally elitist optimizers",
  "C18": "differential runtime monitor: set_config_parameters vs the real config model; run equivalence + stale-read hook",
  "C19": "history monitor: scripted optimizer logs every optimize() call of HyperTuner's pools; exactly-once per grid point and trial; optimality of best_parameters; ParameterGrid laws",
- "C20": "history monitor: scripted optimizers log (algorithm, task, mode, workers) per call of Multitask's pools; exactly n_trials per pair, designated mode; file-system layout of exports",
+ "C20": "history monitor: scripted optimizers log (algorithm, task, mode, workers) per call of Multitask's pools; exactly n_trials per pair, designated mode (also observed where the objective is evaluated: pid / thread); file-system layout of exports",
 }
 NOTE = ("Trusted: CPython, numpy, pydantic, pandas; the harness's own task spec / pure objectives / reference models (unit-"
         "tested by pvmon.selfcheck); known_findings.json (mechanism-keyed, committed). Says nothing about inputs outside the "
